@@ -118,6 +118,11 @@ CATALOGUE = [
     ("mmol", "millimole", _d(N=1), F(1, 1000), F(0)),
     ("A", "ampere", _d(A=1), F(1), F(0)),
     ("cd", "candela", _d(J=1), F(1), F(0)),
+    # offset units inside compound units are parsed by pint as temperature differences (no offset)
+    ("K/h", "kelvin hour-1", _d(K=1, T=-1), F(1, 3600), F(0)),
+    ("degC/h", "delta_degree_Celsius hour-1", _d(K=1, T=-1), F(1, 3600), F(0)),
+    ("degF/h", "delta_degree_Fahrenheit hour-1", _d(K=1, T=-1), F(5, 9 * 3600), F(0)),
+    ("W m-2 K-1", "watt meter-2 kelvin-1", _d(M=1, T=-3, K=-1), F(1), F(0)),
 ]
 NCAT = len(CATALOGUE)
 NAMES = [e[0] for e in CATALOGUE]
